@@ -226,8 +226,6 @@ def _layout_work(chunk):
                     # a run that is not whitespace / comment under this configuration, where a separator is needed
                     for at in range(nsep):
                         t = render(marked, bad, at, runs[0])
-                        if at == nsep - 1 and not marked.rstrip(SEP).endswith(tuple('abcdefghijklmnopqrstuvwxyz0123456789;>)],')):
-                            continue
                         negative(t, f'{bad!r} (not skippable here) at position {at}', 'unskippable-run-accepted')
                 for at in range(nnosep):
                     for run in runs[:3]:
@@ -504,11 +502,10 @@ def _value_forms():
     model = tatsu.compile(rules)
     _src, cls = load_generated(rules)
     probes = (
-        ({'whitespace': '\t '}, 'a \tb', True, 'whitespace-string-is-a-regex-not-a-character-set',
-         'docs/syntax.rst: "The character string is converted into a regular expression character set": a blank followed by a tab is whitespace'),
-        ({'whitespace': '\t '}, 'a\tb', True, 'whitespace-string-is-a-regex-not-a-character-set', 'a tab alone is whitespace under the character set'),
-        ({'whitespace': None}, 'a b', False, 'whitespace-None-setting-does-not-disable-whitespace',
-         'docs/syntax.rst: tatsu.parse(grammar, text, whitespace=None) -- "you will have to handle whitespace in your grammar rules"'),
+        # Two further forms of docs/syntax.rst are NOT probed: a plain string as a *character set* (docs/config.rst and
+        # docs/directives.rst call the value a regular expression, and so does the property: "whitespace default / regex /
+        # empty string") and whitespace=None at parse time (None is "not given" to every Config.override; the property does
+        # not list it).  Both were reported by an earlier version of this run; they ask for more than C09 states.
         ({'whitespace': ''}, 'a b', False, 'whitespace-empty-setting-does-not-disable-whitespace', "whitespace='' disables skipping"),
         ({'whitespace': ''}, 'ab', True, 'whitespace-empty-setting-does-not-disable-whitespace', "whitespace='' : adjacent tokens parse"),
     )
